@@ -3,7 +3,7 @@
 import glob, json, os, re
 V = os.path.dirname(os.path.dirname(os.path.abspath(__file__)))
 rows = []
-for m in sorted(glob.glob(V + '/seeded/*/meta.json')):
+for m in sorted(glob.glob(V + '/seeded/C*/meta.json')):
     d = json.load(open(m))
     name = os.path.basename(os.path.dirname(m))
     caught = []
@@ -30,6 +30,31 @@ first; no check was loosened. %d changes, %d caught by the quick tier of the fin
 |---|---|---|---|
 %s
 ''' % (len(rows), sum('NOT CAUGHT' not in r for r in rows), '\n'.join(rows))
+brows = []
+for m in sorted(glob.glob(V + '/seeded/benign/*/meta.json')):
+    d = json.load(open(m))
+    name = os.path.basename(os.path.dirname(m))
+    what = re.sub(r'\s+', ' ', str(d.get('what_changed') or d.get('title') or ''))[:200]
+    res = []
+    for prop, r in sorted(d.get('checks_run', {}).items()):
+        dr = sorted(set(x.split(' ')[-2] if len(x.split(' ')) > 2 else x for x in r.get('model_drift', [])))
+        res.append('%s: %s%s' % (prop, 'ALARM' if r.get('quick_check_exit') == 1 else 'quiet', (' (drift: ' + ', '.join(dr) + ')') if dr else ''))
+    note = re.sub(r'\s+', ' ', d.get('notes', ''))[:260]
+    brows.append('| `%s` | %s | %s | %s |' % (name, what.replace('|', '/'), '; '.join(res), note.replace('|', '/')))
+txt += '''
+## 14b. Behaviour-preserving changes and the checks that stay quiet
+
+The opposite experiment: changes after which every property still holds (another pivot row, another k heuristic,
+another split point, another cache policy, another loop shape, other temporaries, other OpenMP schedules, other
+message texts), produced by independent sub-agents that saw the property texts and a scratch worktree only.
+A check that exits 1 on one of them raises a false alarm. Two did at first - both defects of the machinery, both
+corrected (section 11, entries 7 and 8); the final machinery is quiet on all %d, and reports model drift (exit 0)
+where the change makes the code differ from an implementation-shaped model or from the allocator's policy model.
+
+| change | what it does | checks run (final machinery) | note |
+|---|---|---|---|
+%s
+''' % (len(brows), '\n'.join(brows))
 p = V + '/DESIGN.md'
 s = open(p).read()
 i = s.find('## 14. Seeded changes and the checks that catch them')
